@@ -78,6 +78,8 @@ type Gateway struct {
 	Window  int      // 1 = stop-and-wait as the tunnelling rules demand; >1 = a server that bursts
 	nextOut uint8    // sequence number of the next new request
 
+	ReuseChannel bool
+
 	// behaviour knobs
 	Silent        bool          // answers nothing at all
 	NoAck         bool          // does not acknowledge tunnelling requests (but forwards them)
@@ -141,7 +143,11 @@ func (g *Gateway) newEpoch() *GwEpoch {
 		g.killEpoch("superseded")
 	}
 	ep := &GwEpoch{Channel: g.nextChan, Start: g.e.Stamp()}
-	g.nextChan++
+	if g.ReuseChannel && len(g.Epochs) > 0 {
+		ep.Channel = g.Epochs[len(g.Epochs)-1].Channel // many servers hand out the lowest free id again
+	} else {
+		g.nextChan++
+	}
 	g.nextOut = 0
 	ep.ConnRes = mkConnRes(ep.Channel, 0, g.hpai())
 	g.Epochs = append(g.Epochs, ep)
